@@ -6,7 +6,7 @@
 (* each record kind has its predicates in PCPlan / PCConfig.  The state is *)
 (* just the position in the record stream: records are independent.        *)
 (***************************************************************************)
-EXTENDS Integers, Sequences, FiniteSets, TLC, Json, PCPlan, PCConfig, PCScale, PCOutputRec, PCApi, PCStopRec
+EXTENDS Integers, Sequences, FiniteSets, TLC, Json, PCPlan, PCConfig, PCScale, PCOutputRec, PCApi, PCStopRec, PCConcRec
 
 CONSTANT TraceFile
 Trace == ndJsonDeserialize(TraceFile)
@@ -27,6 +27,7 @@ Viol(e) ==
     [] e.kind = "output" -> OutputViolated(e)
     [] e.kind = "api" -> ApiViolated(e)
     [] e.kind = "osstop" -> StopViolated(e)
+    [] e.kind = "conc" -> ConcViolated(e)
     [] OTHER -> {}
 
 Init == l = 1
@@ -35,7 +36,7 @@ Next ==
   /\ LET e == Trace[l]  v == Viol(e) IN
        IF v = {} THEN TRUE
        ELSE PrintT("VIOL ## " \o e.id \o " ## " \o ToString(l) \o " ## " \o ToString(v) \o " ## "
-                   \o ToString([kind |-> e.kind, detail |-> IF e.kind \in {"scale", "update"} THEN ScaleDetail(e) ELSE IF e.kind = "output" THEN OutputDetail(e) ELSE IF e.kind = "api" THEN ApiDetail(e) ELSE IF e.kind = "osstop" THEN StopDetail(e) ELSE Detail(e)]) \o " ## " \o ToString([rec |-> l]))
+                   \o ToString([kind |-> e.kind, detail |-> IF e.kind \in {"scale", "update"} THEN ScaleDetail(e) ELSE IF e.kind = "output" THEN OutputDetail(e) ELSE IF e.kind = "api" THEN ApiDetail(e) ELSE IF e.kind = "osstop" THEN StopDetail(e) ELSE IF e.kind = "conc" THEN ConcDetail(e) ELSE Detail(e)]) \o " ## " \o ToString([rec |-> l]))
   /\ l' = l + 1
 Spec == Init /\ [][Next]_vars
 =============================================================================
